@@ -46,7 +46,7 @@ TNext ==
                   /\ SameSet(last'.acc, E.acc)
     \/ TCmd
     \/ Is("turn_end") /\ TurnEnd /\ last'.h = E.h
-    \/ Is("step_end") /\ StepEnd /\ last'.polls = E.polls /\ last'.sent = E.sent
+    \/ Is("step_end") /\ StepEnd /\ last'.polls = E.polls /\ last'.sent = E.sent /\ E.okc = "ok"
     \/ Is("crash") /\ (\E fr \in FrChoices : Crash(E.h, fr)) /\ last'.obs = E.obs
     \/ Is("bounce") /\ (\E fr \in FrChoices : Bounce(E.h, fr)) /\ last'.obs = E.obs
     \/ Is("setlat") /\ SetLat(E.v)
